@@ -313,7 +313,7 @@ func c19noclobber(c *an.Ctx) {
 			if !ok {
 				return
 			}
-			for _, n := range []string{"Rename", "Create", "WriteFile", "Truncate"} {
+			for _, n := range []string{"Rename", "Create", "WriteFile", "Truncate", "RemoveAll"} {
 				if an.StdCallee(call, "os", n) {
 					c.Bad(fn, "no clobbering file call", call.Pos(), "os."+n+" replaces an existing file without notice: rotation/hand-off could overwrite finished data", nil)
 				}
